@@ -1,5 +1,5 @@
 import Witverif.Proofs.Scalar
-import Witverif.Generated.ScalarExprs
+import Witverif.Generated.ScalarExprs.CSharp
 /-! # C14, backend `csharp`: one theorem per scalar ABI instruction
 
 `G.csharp_I` is the list of conversion expressions the `csharp` generator emitted for instruction `I`
